@@ -57,3 +57,57 @@ Print Assumptions C02_empty_shapes.
 Print Assumptions C02_empty_enum_is_never.
 Print Assumptions C02_optional_mark.
 Print Assumptions C02_property_key.
+
+(* ---- acceptance -------------------------------------------------------------------------------------
+   For every environment of derived definitions inside the decidable fragment (plain_envb of C01 — structs and enums of every
+   shape, generic or not, rename / rename_all / rename_all_fields / skip / struct-level tag, all four enum representations,
+   recursion — and de_envb: no `inline` fields, arrays of at most ARRAY_TUPLE_LIMIT elements so that the binding is the
+   tuple of exactly that length, variants of a tagged enum with distinct names on the wire), for EVERY closed type
+   expression over it, EVERY JSON value whose objects have distinct keys, and every evaluation depth f: a member of the
+   TypeScript type TS::name() reports, read against the declarations ts-rs generates, is NOT REJECTED by serde's
+   Deserialize (Spec/SerdeDe.v, tied to the real serde_json::from_str on every run) at any recursion depth >= f: it is
+   read as a value, or it is one of the leaf misfits the property sets aside (DMisfit: a number outside the Rust integer
+   type, a `char` string of another length). *)
+From TsRs Require Import Spec.TsSem Spec.Serde Spec.SerdeDe Proofs.Sem_base_proofs Proofs.Sem_derive_proofs Proofs.De_proofs Props.C01.
+
+Theorem C02_members_are_accepted :
+  forall is_upper is_alnum is_numeric R gf,
+    plain_envb is_upper is_alnum is_numeric R gf = true -> de_envb is_upper R = true ->
+    forall F n t a j f,
+      (F <= n)%nat -> (f <= F)%nat -> mono_ty R t = true -> small_arr t = true -> name_of R t = Ok a ->
+      memberb (env_of is_upper is_alnum is_numeric R gf) f a j = true -> wf_json j = true ->
+      de is_upper R n t j <> DReject.
+Proof. exact member_accepted. Qed.
+
+(* ... and whatever value it is read as, what serde writes for it inhabits the type again (C01, for every value) *)
+Theorem C02_reserialized_inhabits :
+  forall is_upper is_alnum is_numeric R gf,
+    plain_envb is_upper is_alnum is_numeric R gf = true ->
+    forall n m t j v j' a,
+      mono_ty R t = true -> name_of R t = Ok a ->
+      de is_upper R n t j = DOk v -> ser is_upper R m t v = Some j' ->
+      exists f0, forall f, (f0 <= f)%nat -> memberb (env_of is_upper is_alnum is_numeric R gf) f a j' = true.
+Proof. intros is_upper is_alnum is_numeric R gf Henv n m t j v j' a Hm Ha _ Hs. eapply derive_layer_member; eassumption. Qed.
+
+(* the hypotheses are inhabited: the generic definitions of C01_generic (struct Pair<A, B = A>, adjacently tagged enum Opt<T>),
+   the instantiation Pair<i32, Opt<String>>, a JSON value that is a member of its type and is read as a value *)
+Example C02_acceptance_nonvacuous :
+  let R := C01_generic.R in
+  let j := JObj [(lit "first", JInt 5); (lit "second", JArr [JObj [(lit "t", JStr (lit "Nothing"))];
+                                                              JObj [(lit "t", JStr (lit "Just")); (lit "c", JStr (lit "x"))]])] in
+  plain_envb C01_example.up C01_example.al is_ascii_digit R 10 = true /\ de_envb C01_example.up R = true /\
+  mono_ty R C01_generic.t = true /\ small_arr C01_generic.t = true /\ wf_json j = true /\
+  exists a, name_of R C01_generic.t = Ok a /\
+    memberb (env_of C01_example.up C01_example.al is_ascii_digit R 10) 12 a j = true /\
+    de C01_example.up R 12 C01_generic.t j = DOk (VStruct [VInt 5; VSeq [VVariant 0 []; VVariant 1 [VStr (lit "x")]]]) /\
+    (* a near miss that is not a member, and is rejected: the content of `Just` is missing *)
+    memberb (env_of C01_example.up C01_example.al is_ascii_digit R 10) 12 a
+      (JObj [(lit "first", JInt 5); (lit "second", JArr [JObj [(lit "t", JStr (lit "Just"))]])]) = false.
+Proof.
+  cbv zeta. split; [vm_compute; reflexivity|]. split; [vm_compute; reflexivity|]. split; [vm_compute; reflexivity|].
+  split; [vm_compute; reflexivity|]. split; [vm_compute; reflexivity|].
+  eexists. split; [vm_compute; reflexivity|]. split; [vm_compute; reflexivity|]. split; vm_compute; reflexivity.
+Qed.
+
+Print Assumptions C02_members_are_accepted.
+Print Assumptions C02_reserialized_inhabits.
